@@ -25,7 +25,7 @@ var kf *known.File
 func TestMain(m *testing.M) {
 	kf, _ = known.Load(ev.KnownFile())
 	rec.Rule("(requirement, list of 0-8 distinct version records) for NPM, Maven, PyPI: requirements are ranges (random, and written with the list's own versions), tags, exact strings or unparsable text; tag lists may hold another tag containing the tag's text before it; a sixth of the npm cases put latest on a prerelease and ask for a window of prereleases around it; records are valid, prerelease, tagged and (NPM) unparsable versions; every permutation of the list up to 6 elements, 24 sampled permutations beyond; oracle = harness model (exactly the satisfying versions, ascending by the documented order with npm's latest rule, identical for every permutation) observed at resolve.SortVersions, resolve.MatchRequirement and LocalClient.MatchingVersions. One evaluation = one (requirement, list, permutation). Non-trivial: >= 3 versions, >= 1 match and >= 1 non-match, and a tag, prerelease or unparsable entry present. Distinct = distinct (system, requirement, list).")
-	rec.Assume("per-version Constraint.Match is taken as given (C03 owns it); PyPI lists hold only valid PEP 440 strings (the fallback comparator for unparsable non-NPM strings is outside the domain)")
+	rec.Assume("per-version Constraint.Match is taken as given (C03 owns it); a quarter of the PyPI lists also hold legacy strings that are not PEP 440 versions, with range requirements only: they satisfy no range, the listing as a whole is then not asserted (the order of an unparsable non-NPM string is not defined), the matches are")
 	ev.Main(m, rec)
 }
 
@@ -107,11 +107,23 @@ func expectation(sv semver.System, req string, list []refmodel.Rec) (listing [][
 func checkPerm(sysName string, req string, list []refmodel.Rec, perm []int) (string, string) {
 	sys := systems[sysName]
 	sv := sys.Semver()
-	listing, matched, _ := expectation(sv, req, list)
+	// Outside NPM the order of a string that is not a version is not defined;
+	// such an entry satisfies no range, so the expectation is computed on the
+	// versions that parse and the listing as a whole is not asserted.
+	parsable := list
+	if sysName != "NPM" {
+		parsable = nil
+		for _, r := range list {
+			if _, err := sv.Parse(r.Version); err == nil {
+				parsable = append(parsable, r)
+			}
+		}
+	}
+	listing, matched, _ := expectation(sv, req, parsable)
 	// (a) SortVersions
 	vs := mkVersions(sys, list, perm)
 	resolve.SortVersions(vs)
-	if refmodel.CountLatest(list) <= 1 && !refmodel.SameClasses(strs(vs), listing) {
+	if len(parsable) == len(list) && refmodel.CountLatest(list) <= 1 && !refmodel.SameClasses(strs(vs), listing) {
 		return fmt.Sprintf("SortVersions(perm %v) = %q; expected classes %q", perm, strs(vs), listing), "ascending documented order for every permutation"
 	}
 	rk := resolve.VersionKey{PackageKey: resolve.PackageKey{System: sys, Name: "p"}, VersionType: resolve.Requirement, Version: req}
@@ -206,7 +218,23 @@ func drawCase(t *rapid.T, sysName string) listCase {
 	}
 	var req string
 	sv := systems[sysName].Semver()
-	switch k := rapid.IntRange(0, 9).Draw(t, "reqkind"); {
+	// PyPI: a quarter of the lists also hold legacy strings that are not
+	// PEP 440 versions (pytz 2004d); they satisfy no range, and the versions
+	// that do must still come back in ascending order.
+	legacy := false
+	if sysName == "PyPI" && len(list) > 0 && rapid.IntRange(0, 3).Draw(t, "legacy") == 0 {
+		legacy = true
+		for i, n := 0, rapid.IntRange(1, 2).Draw(t, "nlegacy"); i < n; i++ {
+			r := refmodel.Rec{Version: []string{"2004d", "1x"}[i]}
+			at := rapid.IntRange(0, len(list)).Draw(t, "legacyat")
+			list = append(list[:at:at], append([]refmodel.Rec{r}, list[at:]...)...)
+		}
+	}
+	kmax := 9
+	if legacy {
+		kmax = 4 // ranges only
+	}
+	switch k := rapid.IntRange(0, kmax).Draw(t, "reqkind"); {
 	case k < 3 || len(list) == 0:
 		req = gen.Constraint(sv).Draw(t, "range")
 	case k < 5:
@@ -214,6 +242,14 @@ func drawCase(t *rapid.T, sysName string) listCase {
 		// and between listed versions, prereleases and tagged versions included
 		a := list[rapid.IntRange(0, len(list)-1).Draw(t, "aima")].Version
 		b := list[rapid.IntRange(0, len(list)-1).Draw(t, "aimb")].Version
+		if legacy {
+			if _, err := sv.Parse(a); err != nil {
+				a = "1.0"
+			}
+			if _, err := sv.Parse(b); err != nil {
+				b = "9.0"
+			}
+		}
 		switch sysName {
 		case "NPM":
 			req = rapid.SampledFrom([]string{">=" + a, ">=" + a + " <" + b, a + " || " + b, "<=" + a, ">" + a, "^" + a, "~" + a, ">=" + a + " <=" + b}).Draw(t, "aimform")
